@@ -17,13 +17,18 @@ def probe_reads(keys, revs):
     return lines
 
 
-SKIP_KEYS = [PREFIX + b"/a/x", PREFIX + b"/a/b/y", PREFIX + b"/a/b/c/z", PREFIX + b"/c/k", PREFIX + b"/d", PREFIX + b"/a-b", PREFIX + b"/ab/k"]
+SKIP_KEYS = [PREFIX + b"/a/x", PREFIX + b"/a/b/y", PREFIX + b"/a/b/c/z", PREFIX + b"/c/k", PREFIX + b"/d", PREFIX + b"/a-b", PREFIX + b"/ab/k",
+             PREFIX + b"/a-b/k", PREFIX + b"/a.b/k", PREFIX + b"/c-old/k"]
 # skipped-prefix configurations: single, nested, duplicate, sibling pairs, foreign (outside the key prefix), parent of the
 # key prefix, with and without trailing slash
 SKIP_CONFIGS = [
     [PREFIX + b"/a"], [PREFIX + b"/a", PREFIX + b"/a/b"], [PREFIX + b"/a/b", PREFIX + b"/a"], [PREFIX + b"/a", PREFIX + b"/a"],
     [PREFIX + b"/a/b", PREFIX + b"/c"], [PREFIX + b"2/x"], [PREFIX + b"2/x", PREFIX + b"/a"], [b"/q", PREFIX + b"/c"],
     [PREFIX + b"/a/", PREFIX + b"/a/b/c"], [PREFIX + b"/a/b", PREFIX + b"/a/b", PREFIX + b"/a"], [PREFIX + b"/a/b/c", PREFIX + b"/a", PREFIX + b"/c", PREFIX + b"/a/b"],
+    # siblings of which one is a string prefix of the other and the longer one goes on with a byte below '/': as STRINGS /a < /a-b,
+    # as DIRECTORIES /a-b/ < /a/ (the order the subtraction of the skipped directories has to use)
+    [PREFIX + b"/a", PREFIX + b"/a-b"], [PREFIX + b"/a-b", PREFIX + b"/a"], [PREFIX + b"/a", PREFIX + b"/a.b", PREFIX + b"/a-b"],
+    [PREFIX + b"/c", PREFIX + b"/c-old", PREFIX + b"/a/b"],
 ]
 
 
